@@ -89,10 +89,12 @@ Proof. exact pub_closed_only_by_sharing. Qed.
 Print Assumptions C10_publisher_closed_only_by_sharing_handler.
 
 (** ... a handler's subscription ends only through the environment, through its own context
-    (honouring subscriber) or because the whole router is closing ... *)
+    (honouring subscriber), or - only while the whole ROUTER is closing - through the handleClose of a
+    handler that uses the same Subscriber object ([h_sub]: Subscriber objects may be shared) ... *)
 Theorem C10_subscription_ended_only_by : forall s l s' evs h,
   step s l = Some (s', evs) -> h < nexth s -> h_subOpen (hs s h) = true -> h_subOpen (hs s' h) = false ->
-  l = LSubEnd h \/ (l = LSubCtx h /\ hctx_done s h = true) \/ (exists b, l = LHC h b /\ closingCh s = true).
+  l = LSubEnd h \/ (l = LSubCtx h /\ hctx_done s h = true)
+  \/ (exists h' b, l = LHC h' b /\ closingCh s = true /\ h_sub (hs s h) = h_sub (hs s h')).
 Proof. exact sub_closed_only_by. Qed.
 Print Assumptions C10_subscription_ended_only_by.
 
